@@ -181,6 +181,20 @@ def cnf_layouts(r, n, clauses):
 def gen_cnf(r):
     n = r.choice([0, 1, 2, 3, 4, 5, 6, 8, 10, 12, 14])
     shape = r.random()
+    if shape < 0.12:
+        # larger instances (hundreds of conflicts, so that restarts and learned-clause database reduction
+        # happen): ground truth comes from the certificate (model line / checked DRAT proof)
+        if r.random() < 0.4:
+            k = r.choice([4, 4, 5, 5, 5, 5, 6])  # pigeonhole PHP(k+1, k): unsatisfiable
+            var = lambda p, h: p * k + h + 1
+            clauses = [[var(p, h) for h in range(k)] for p in range(k + 1)]
+            clauses += [[-var(p, h), -var(q, h)] for h in range(k) for p in range(k + 1) for q in range(p + 1, k + 1)]
+            r.shuffle(clauses)
+            return (k + 1) * k, clauses, ["cnf.large", "cnf.pigeonhole"]
+        n = r.randint(18, 30)
+        m = int(n * r.uniform(4.0, 4.6))
+        clauses = [[r.choice([-1, 1]) * v for v in r.sample(range(1, n + 1), 3)] for _ in range(m)]
+        return n, clauses, ["cnf.large"]
     if shape < 0.5 and n >= 3:
         m = int(n * r.uniform(3.5, 5.0))  # around the 3-SAT threshold
         clauses = [[r.choice([-1, 1]) * v for v in r.sample(range(1, n + 1), 3)] for _ in range(m)]
@@ -234,7 +248,7 @@ def check_cnf_text(text, n, clauses, expected_sat, d, res, layout):
     status, v = parse_cnf_out(out)
     if status == "SATISFIABLE":
         assign = {abs(x): x > 0 for x in v if x != 0}
-        if not expected_sat:
+        if expected_sat is False:
             fail(res, "sat-but-unsatisfiable", "layout %s: s SATISFIABLE for an unsatisfiable formula" % layout)
         elif len(assign) != n or any(k < 1 or k > n for k in assign):
             fail(res, "model-not-total", "layout %s: v line %s does not assign exactly the %d variables" % (layout, v, n))
@@ -243,7 +257,7 @@ def check_cnf_text(text, n, clauses, expected_sat, d, res, layout):
         count(res, "models_checked")
         return "SAT"
     if status == "UNSATISFIABLE":
-        if expected_sat:
+        if expected_sat is True:
             fail(res, "unsat-but-satisfiable", "layout %s: s UNSATISFIABLE for a satisfiable formula" % layout)
             return "UNSAT"
         try:
@@ -287,7 +301,10 @@ def case_cnf(r, i, d):
         classes = classes + ["cnf.options"]
     res = result(i, classes, layouts[0][1], ["--proof-path", "<proof>"] + opts)
     res["config"]["options"] = opts
-    expected = cnf_brute(n, clauses)
+    # None: too large for brute force, the verdict is validated through its certificate
+    expected = cnf_brute(n, clauses) if n <= 14 else (False if "cnf.pigeonhole" in classes else None)
+    if n > 14:
+        layouts = layouts[:3]
     verdicts = {}
     for name, text in layouts:
         lres = result(i, classes + ["layout." + name], text, ["--proof-path", "<proof>"] + opts)
@@ -300,7 +317,7 @@ def case_cnf(r, i, d):
         res["cover"].append("layout:" + name)
     if res["status"] != "fail" and len(set(verdicts.values())) != 1:
         fail(res, "layout-dependent-verdict", "verdicts per layout: %s" % verdicts)
-    res["cover"].append("verdict:" + ("sat" if expected else "unsat"))
+    res["cover"].append("verdict:" + ("certified" if expected is None else "sat" if expected else "unsat"))
     res["nontrivial"] = len(clauses) >= 3 and n >= 2
     res["case"]["n"] = n
     res["case"]["clauses"] = clauses
@@ -312,7 +329,7 @@ def replay_cnf(data, d):
     n, clauses = data["case"]["n"], data["case"]["clauses"]
     res = result(0, data.get("classes", []), text, [])
     res["config"]["options"] = (data.get("config") or {}).get("options", [])
-    check_cnf_text(text, n, clauses, cnf_brute(n, clauses), d, res, data["case"].get("layout", "recorded"))
+    check_cnf_text(text, n, clauses, cnf_brute(n, clauses) if n <= 14 else None, d, res, data["case"].get("layout", "recorded"))
     return res
 
 
